@@ -702,4 +702,35 @@ theorem ri_parse_text (env : Env) (input : Str) (hd : DigitsNotWs env.cs) (c : C
   intro l hl
   exact ri_render_mono env (fun i q h => by rw [hq]; exact hgrow i q h) _ _ hl
 
+/-! ### characters -/
+
+/-- the character occurs in a `Text` item of a step of the recipe, in a source text (`InlineSrc`) of an inline
+    quantity a step refers to, or in a text block -/
+def RecipeHasCharQ (env : Env) (c : Col α) (ch : Char) : Prop :=
+  ∃ sec ∈ c.sections, ∃ ct ∈ sec.content,
+    (∃ st τ, ct = .step st ∧ Item.text τ ∈ st.items ∧ ch ∈ τ) ∨
+    (∃ st k q src, ct = .step st ∧ Item.inlineQuantity k ∈ st.items ∧ c.inlineQ[k]? = some q ∧
+      InlineSrc env src q ∧ ch ∈ src) ∨
+    (∃ buf, ct = .text buf ∧ ch ∈ buf)
+
+theorem ri_hasChar {env : Env} {c : Col α} {τ : Str} {ch : Char}
+    (h : SecsHaveP (fun e => ItemsRender env (fun i q => c.inlineQ[i]? = some q) e τ) τ c.sections)
+    (hc : ch ∈ τ) : RecipeHasCharQ env c ch := by
+  obtain ⟨sec, hsec, ct, hct, hh⟩ := h
+  refine ⟨sec, hsec, ct, hct, ?_⟩
+  cases ct with
+  | step st =>
+    obtain ⟨a, extra, b, e, hr⟩ := hh
+    have hsub : ∀ it ∈ extra, it ∈ st.items := by
+      intro it hit; rw [e]; simp [hit]
+    rcases ri_render_char env ch extra τ hr hc with ⟨τ', h1, h2⟩ | ⟨k, src, q, h1, h2, h3, h4⟩
+    · exact Or.inl ⟨st, τ', rfl, hsub _ h1, h2⟩
+    · exact Or.inr (Or.inl ⟨st, k, q, src, rfl, hsub _ h1, h2, h3, h4⟩)
+  | text buf =>
+    obtain ⟨x, y, hxy⟩ := hh
+    exact Or.inr (Or.inr ⟨buf, rfl, by rw [← hxy]; simp [hc]⟩)
+
+/-- a small environment for the examples: the toy character table, INLINE_QUANTITIES on, the one unit `g` -/
+def riToyEnv : Env := ⟨toyCharSpec, ⟨128⟩, fun u => if u = ['g'] then some 0 else none, fun _ _ => .ok, fun c => [c], 0⟩
+
 end Cook
